@@ -398,11 +398,16 @@ def c10(r):
                         out.append(F('c10-step-after-failure', 'if an awaited item fails the following step never runs',
                                      dict(step=i, future=f, ops=r.ops)))
                         return out
-                    expect_ctx[key] = completed[f][1] if f in completed else None
+                # several items may share a key: the value found is that of one of them (the one whose done-callback ran last;
+                # which one that is, is decided by the model correspondence, the monitor accepts any of the candidates)
+                fresh = {}
+                for f, key in prev[2]:
+                    fresh.setdefault(key, set()).add(completed[f][1] if f in completed else None)
+                expect_ctx.update(fresh)
             for key, val in expect_ctx.items():
-                if t[5].get(key) != val:
+                if t[5].get(key) not in val:
                     out.append(F('c10-context', 'the next step finds each result under its key (later assignment wins)',
-                                 dict(step=i, key=key, got=t[5].get(key), want=val, ops=r.ops)))
+                                 dict(step=i, key=key, got=t[5].get(key), want=sorted(map(str, val)), ops=r.ops)))
                     return out
     # failure: an awaited item of the step being waited on failed => EXCEPTED with that error
     if all(c['op'] in ('pause', 'play', 'complete') for c in r.calls):
